@@ -10,6 +10,7 @@ import (
 	"encoding/json"
 	"fmt"
 	"net/url"
+	"sync"
 	"time"
 
 	"github.com/hashicorp/eventlogger"
@@ -114,6 +115,9 @@ type FormatterFilter struct {
 	// SignEventTypes contains a list of event types which should be signed by
 	// the Signer
 	SignEventTypes []string
+
+	// l guards Signer, which Rotate may replace while events are processed
+	l sync.RWMutex
 }
 
 var _ eventlogger.Node = &FormatterFilter{}
@@ -253,8 +257,11 @@ func (f *FormatterFilter) sign(ctx context.Context, e *Event, enc *json.Encoder,
 	if buf == nil {
 		return fmt.Errorf("%s: missing buffer: %w", op, eventlogger.ErrInvalidParameter)
 	}
-	if f.Signer != nil && strutil.StrListContains(f.SignEventTypes, e.Type) {
-		bufHmac, err := f.Signer(ctx, buf.Bytes())
+	f.l.RLock()
+	signer := f.Signer
+	f.l.RUnlock()
+	if signer != nil && strutil.StrListContains(f.SignEventTypes, e.Type) {
+		bufHmac, err := signer(ctx, buf.Bytes())
 		if err != nil {
 			return fmt.Errorf("%s: unable to sign: %w", op, err)
 		}
@@ -278,6 +285,8 @@ func (f *FormatterFilter) Rotate(s Signer) error {
 	if s == nil {
 		return fmt.Errorf("%s: missing signer: %w", op, eventlogger.ErrInvalidParameter)
 	}
+	f.l.Lock()
+	defer f.l.Unlock()
 	f.Signer = s
 	return nil
 }
